@@ -50,9 +50,6 @@ def signature(c, f):
     kind:family+tags (collapse == "all") or kind:family+tags:when (collapse == "obs")."""
     st = list(c.get("sigtags") or [])
     col = c.get("collapse")
-    if c["fam"] == "opes" and f["sig"].startswith("run-boundary:"):
-        # no state file involved: the restart schedule does not matter
-        return "run-boundary:opes:" + f["sig"].split(":")[-1]
     fam = c["fam"] + ("".join("+" + t for t in st))
     parts = f["sig"].split(":")          # engine signatures are <kind>:<fam>:<rest...>
     if col == "all":
@@ -86,7 +83,7 @@ def gen_cases(r, quick, only=None):
             c["reject_Ks"] = sorted(r2.sample(c["Ks"], 2))
             # a job resumed twice; not for the objects whose single resume is a recorded finding
             ch = set()
-            if not (fam in ("pabf", "runave") or c.get("sigtags") or c.get("collapse")):
+            if not (fam in ("runave",) or c.get("sigtags") or c.get("collapse")):
                 for _ in range(2):
                     K1 = r2.randrange(0, T - 1)
                     ch.add((K1, r2.randrange(K1 + 1, T) if r2.random() < 0.8 else K1, r2.choice(c["fmts"])))
